@@ -410,8 +410,18 @@ class Ctx:
                 'detail': self.proof_broken,
                 'search': 'correspondence and oracle streams of this run found no failing input'},
                 no_failing_input=True)
+        # schema: coverage.exhaustive is a boolean; checks that describe a bounded exhaustive enumeration in words
+        # keep the description under coverage.exhaustive_scope (a bounded search, never the claim)
+        ex = self.cov.get('exhaustive')
+        if ex is not None and not isinstance(ex, bool):
+            self.cov['exhaustive_scope'] = ex
+            self.cov['exhaustive'] = False
+        for k in ('evaluations', 'distinct_nontrivial', 'obligations', 'discharged', 'traces_validated_against_impl'):
+            self.cov[k] = int(self.cov.get(k) or 0)
+        if not isinstance(self.cov.get('samples'), list):
+            self.cov['samples'] = []
         ev = {
-            'property_id': self.pid, 'tier': self.tier, 'seed': self.seed, 'level': 'proof',
+            'property_id': self.pid, 'tier': self.tier, 'seed': int(self.seed), 'level': 'proof',
             'coverage': self.cov, 'assumptions': self.assumptions, 'wall_s': round(wall, 2),
             'violations': len(self.violations),
             'known_findings_reconfirmed': self.known_hits, 'notes': self.notes,
